@@ -1562,6 +1562,103 @@ def inline_module_helpers(tree, counter, modname, known, everything=False):
     return total
 
 
+# ---------------------------------------------------------------------------------------------- cross-module helpers
+import builtins as _builtins
+
+
+def _module_bindings(tree):
+    """name -> description of what binds it at module level (for comparing two modules' views of a name)."""
+    out = {}
+    for st in tree.body:
+        if isinstance(st, ast.ImportFrom) and st.level == 0:
+            for al in st.names:
+                out[al.asname or al.name] = ("from", st.module, al.name)
+        elif isinstance(st, ast.Import):
+            for al in st.names:
+                out[(al.asname or al.name).split(".")[0]] = ("import", al.name if al.asname else al.name.split(".")[0])
+        elif isinstance(st, _FUNC_NODES + (ast.ClassDef,)):
+            out[st.name] = ("def", st.name)
+        elif isinstance(st, (ast.Assign, ast.AnnAssign)):
+            tg = st.targets if isinstance(st, ast.Assign) else [st.target]
+            for t in tg:
+                for n in ast.walk(t):
+                    if isinstance(n, ast.Name):
+                        out[n.id] = ("var", n.id)
+    return out
+
+
+def inline_cross_module_helpers(trees, known, counter):
+    """A helper function that is new relative to the reference tree, defined in module A and imported by name into
+    module B, is copied into B (with the imports its body needs) and inlined at its call sites there."""
+    done = 0
+    for aname, atree in list(trees.items()):
+        abind = _module_bindings(atree)
+        for h in [x for x in atree.body if isinstance(x, ast.FunctionDef) and x.name not in known.get(aname, set())]:
+            if not inlinable_def(h):
+                continue
+            inlined_everywhere = True
+            importers = []
+            for bname, btree in trees.items():
+                if bname == aname:
+                    continue
+                for st in btree.body:
+                    if isinstance(st, ast.ImportFrom) and st.level == 0 and st.module == aname and any(al.name == h.name for al in st.names):
+                        importers.append((bname, btree, st))
+            if not importers:
+                continue
+            for bname, btree, imp in importers:
+                al = next(a for a in imp.names if a.name == h.name)
+                local = al.asname or al.name
+                trial = copy.deepcopy(btree)
+                timp = next(st for st in trial.body if isinstance(st, ast.ImportFrom) and st.level == 0 and st.module == aname
+                            and any(a.name == h.name for a in st.names))
+                bbind = _module_bindings(trial)
+                extra_imports = []
+                ok = True
+                for g in sorted(free_names(h)):
+                    if hasattr(_builtins, g):
+                        continue
+                    src = abind.get(g)
+                    if src is None:
+                        ok = False
+                        break
+                    want = src if src[0] in ("from", "import") else ("from", aname, g)
+                    have = bbind.get(g)
+                    if have == want:
+                        continue
+                    if have is not None:
+                        ok = False
+                        break
+                    if want[0] == "from":
+                        extra_imports.append(ast.ImportFrom(module=want[1], names=[ast.alias(name=want[2], asname=g if g != want[2] else None)], level=0))
+                    else:
+                        extra_imports.append(ast.Import(names=[ast.alias(name=want[1], asname=g if g != want[1] else None)]))
+                if not ok:
+                    inlined_everywhere = False
+                    continue
+                hc = copy.deepcopy(h)
+                hc.name = local
+                timp.names = [a for a in timp.names if a.name != h.name]
+                idx = trial.body.index(timp)
+                new_stmts = [_loc(x, timp) for x in extra_imports] + [hc]
+                if timp.names:
+                    trial.body[idx + 1:idx + 1] = new_stmts
+                else:
+                    trial.body[idx:idx + 1] = new_stmts
+                if inline_helpers(trial, [hc], counter, is_module=True) == 1:
+                    btree.body[:] = trial.body
+                    done += 1
+                else:
+                    inlined_everywhere = False
+            # the original definition goes when nothing refers to it any more
+            still = any(isinstance(n, ast.Name) and n.id == h.name for n in ast.walk(atree) if n is not h) or \
+                any(isinstance(st, ast.ImportFrom) and st.module == aname and any(a.name == h.name for a in st.names)
+                    for t in trees.values() for st in ast.walk(t))
+            if inlined_everywhere and not still and not _exported(atree, h.name):
+                atree.body.remove(h)
+    return done
+
+
 # ---------------------------------------------------------------------------------------------- driver
 def load_known_funcs():
     """Reference table: module -> names of its module-level functions on the tree the rules were confirmed on.
@@ -1581,6 +1678,10 @@ def canonicalise(trees, level, known_funcs=None):
     log = []
     if level <= 0:
         return log
+    if level >= 2:
+        n_x = inline_cross_module_helpers(trees, known_funcs or {}, itertools.count(1000))
+        if n_x:
+            log.append({"module": "*", "cross_module_helpers_inlined": n_x})
     for name, tree in trees.items():
         counter = itertools.count()
         mt = MatchToIf()
